@@ -11,8 +11,21 @@ range errors, one request on the wire at a time in issue order and release only 
 get_value / update callbacks after a reply, attribution of default-value and persistent store/clear/state replies to
 the request with the same parameter id, unsolicited value-changed notifications.
 
-Assumed: queue.Queue is FIFO and thread safe; threading.Lock semantics.  Not covered: genuine interleavings of several
-application threads calling set_value concurrently (they only meet in queue.Queue.put, which is assumed atomic).
+Extension round (second half of the file): set_value_raw (set by name, any name length, no padding); a history from the
+constructor state through "all parameters fetched" for every protocol version (the generation is taken from the platform,
+not preset); one exchange step for ANY request and ANY well-formed packet (induction over the queue replaces "three
+requests"); decoding of write answers / read answers / notifications for all 10 types; every reply variant of
+persistent_get_state / get_default_value (stored, not stored, error) and any status byte of store / clear; update callbacks
+added and removed; unknown names for reads and queries; requests before the connection is complete (never waits on the
+dispatcher thread); disconnect with pending / queued requests followed by a new connection of the same object; explicit
+schedules of several issuing threads (a whole set_value inside another thread's queue.put; requests issued while the
+updater is inside the transmitting call); retransmission on links that need resending stops with the answer.
+
+Assumed: queue.Queue is FIFO and thread safe; threading.Lock / Event semantics (sequential models).  Not covered:
+pre-emption INSIDE queue.Queue.put / Lock.acquire themselves; malformed replies (wrong length for the declared type - the
+decoding error then keeps the updater waiting); the table download and the extended-type (persistence marker) replies,
+which are decided under C03 (param.refresh_toc.*, xtype.*); symbolic float bit patterns in the text form of cached values
+(eight concrete patterns instead).  Findings kept in the thorough tier: same-parameter-twice.*, reconnect.late-answer-while-idle.
 """
 from pyvc.api import contract
 
@@ -33,9 +46,9 @@ def toc_entry(code, group, name):
     return bytes([code]) + group.encode() + b'\x00' + name.encode() + b'\x00'
 
 
-def setup(c, entries, v2=True):
-    """real Crazyflie with a parameter TOC [(ident_input_name, type_code_with_flags, group, name)], link stub,
-    sequential queue/lock in the updater.  Returns (cf, param, updater)."""
+def world(c):
+    """real Crazyflie as its constructor leaves it, plus: link stub, sequential queue/lock in the updater.  Nothing of the
+    connection state (protocol generation, TOC, 'all parameters fetched') is preset.  Returns (cf, param, updater)."""
     cf = c.new(CF + ':Crazyflie')
     link = c.ext('link', attrs={'needs_resending': False})
     c.set(cf, 'link', link)
@@ -43,15 +56,29 @@ def setup(c, entries, v2=True):
     upd = c.getfield(param, 'param_updater')
     c.set(upd, 'request_queue', c.queue('rq'))
     c.set(upd, 'wait_lock', c.lock('wait_lock'))
-    c.set(c.getfield(cf, 'platform'), '_protocolVersion', 9 if v2 else 1)     # negotiated protocol generation
-    c.set(param, '_useV2', v2)
-    c.set(upd, '_useV2', v2)
+    # sequential model of the 'all parameters fetched' event as well: a wait with timeout on the unset event returns False
+    # at once instead of sleeping 60 s in the native replay
+    c.set(param, '_initialized', c.event('initialized'))
+    c.let('cf', cf), c.let('param', param), c.let('upd', upd)
+    return cf, param, upd
+
+
+def fill_toc(c, param, entries):
     toc = c.getfield(param, 'toc')
     for ident, code, group, name in entries:
         el = c.new(PRM + ':ParamTocElement', ident, toc_entry(code, group, name))
         c.invoke((toc, 'add_element'), el)
+
+
+def setup(c, entries, v2=True):
+    """real Crazyflie with a parameter TOC [(ident_input_name, type_code_with_flags, group, name)], link stub,
+    sequential queue/lock in the updater.  Returns (cf, param, updater)."""
+    cf, param, upd = world(c)
+    c.set(c.getfield(cf, 'platform'), '_protocolVersion', 9 if v2 else 1)     # negotiated protocol generation
+    c.set(param, '_useV2', v2)
+    c.set(upd, '_useV2', v2)
+    fill_toc(c, param, entries)
     c.invoke((c.getfield(param, '_initialized'), 'set'))
-    c.let('cf', cf), c.let('param', param), c.let('upd', upd)
     c.reset_trace()
     return cf, param, upd
 
@@ -66,9 +93,10 @@ def run_updater(c, upd):
     c.call((upd, 'run'))
     c.ensure('updater-loop-only-blocks', "raised == 'Deadlock'", cls='A')
     if c.get('raised') == 'Deadlock' and c.concretize("'acquire' in str(exc)"):
-        taken = len(before) - len(q.items)
-        if taken >= 1:
-            q.items.insert(0, before[taken - 1])
+        # (requests queued DURING the run - by another thread's action inside a stub - are at the tail and do not count)
+        gone = [x for x in before if not any(x is y for y in q.items)]
+        if gone:
+            q.items.insert(0, gone[-1])
 
 
 def deliver(c, cf, channel, data_expr):
@@ -134,6 +162,49 @@ for _code in (0x08, 0x02, 0x06):
     _set_value(_code, False)
 
 
+RAW_NAMES = ['a.b', 'ab.c', 'g.abc', 'pid.kp', 'ring.effect']      # value field at offsets 6, 7, 8, 9, 14 of the payload
+
+
+def _set_value_raw(code):
+    fmt, lo, hi = TYPES[code]
+
+    @contract('C04', 'set_value_raw.%s' % NAMES[code], [PRM + ':Param.set_value_raw', CF + ':Crazyflie.send_packet'],
+              clause='setting a parameter by name (no TOC needed) transmits exactly the requested value encoded little-endian in the '
+                     'given type, preceded by the set-by-name command 0, the zero-terminated group and name and the type code, with no '
+                     'padding, whatever the length of the name; values outside the type range raise and nothing is transmitted',
+              bounded='five names (value field at payload offsets 6, 7, 8, 9 and 14, i.e. every alignment class of 2, 4 and 8)')
+    def k(c):
+        cf, param, upd = setup(c, [])
+        name = c.choice('name', RAW_NAMES)
+        c.let('wire_name', name.replace('.', '\0').encode() + b'\0')
+        c.let('code', code)
+        if lo is None:
+            c.float('value')
+        else:
+            c.int('value', -2 ** 66, 2 ** 66)
+        c.call((param, 'set_value_raw'), name, code, c.get('value'))
+        if lo is None:
+            ok = "fits_f32(value)" if fmt == '<f' else 'True'
+        else:
+            ok = '%d <= value <= %d' % (lo, hi)
+        c.ensure('raises-iff-out-of-range', "iff(raised is None, %s)" % ok)
+        c.ensure('declared-errors-only', "raised in (None, 'struct.error', 'OverflowError')")
+        if c.get('raised') is not None:
+            c.ensure('nothing-transmitted-on-error', "len(sent('link.send_packet')) == 0 and upd.request_queue.qsize() == 0")
+            return
+        c.ensure('transmitted-exactly-once', "len(sent('link.send_packet')) == 1")
+        c.snapshot('pk', "sent('link.send_packet')[0][1][0]")
+        c.ensure('port-channel', 'pk.port == 2 and pk.channel == 3')
+        c.ensure('payload-is-command-name-type-then-typed-value',
+                 "bytes(pk.data) == bytes([0]) + wire_name + bytes([code]) + pack('%s', value)" % fmt)
+        c.ensure('no-answer-awaited', 'not upd.wait_lock.locked() and upd.request_queue.qsize() == 0')
+    return k
+
+
+for _code in TYPES:
+    _set_value_raw(_code)
+
+
 @contract('C04', 'set_value.string-and-bool-values', SET_F,
           clause='values given as decimal strings (as the library itself does for kalman.resetEstimation) are converted, not reinterpreted')
 def set_value_str(c):
@@ -150,7 +221,7 @@ def set_value_str(c):
           clause='read-only or unknown parameters are refused without any transmission')
 def set_refused(c):
     cf, param, upd = setup(c, [(1, 0x08 | 0x40, 'g', 'ro'), (2, 0x08, 'g', 'rw')])
-    which = c.choice('name', ['g.ro', 'g.missing', 'x.rw'])
+    which = c.choice('name', ['g.ro', 'g.missing', 'x.rw', 'nodot', 'g.rw.x', ''])
     c.call((param, 'set_value'), which, 1)
     c.let('which', which)
     c.ensure('refused', "raised == ('AttributeError' if which == 'g.ro' else 'KeyError')")
@@ -211,6 +282,8 @@ def one_at_a_time(c):
     c.ensure('notification-updates-cache-without-release', "param.values['g']['a'] == str(dev_a2) and upd.wait_lock.locked() and len(sent('cb_a')) == 2")
     deliver(c, cf, 2, "pack('<HB', id2, vc)")
     c.ensure('all-done', "not upd.wait_lock.locked() and param.values['h']['c'] == str(vc) and upd.request_queue.qsize() == 0")
+    c.ensure('every-answer-delivered-once-to-the-registered-callbacks-of-its-parameter-only',
+             "len(sent('cb_a')) == 2 and len(sent('cb_group_g')) == 3 and len(sent('cb_all')) == 4 and sent('cb_all')[-1][1] == ('h.c', str(vc))")
     # a late duplicate of the last reply (with whatever value) while the updater is idle is delivered to nobody
     c.int('late', 0, 255)
     c.require('late != vc')
@@ -228,7 +301,7 @@ def _attribution(api):
     @contract('C04', 'attribution.' + api, [PRM + ':Param.' + api, PRM + ':_ParamUpdater.send_param_misc', PRM + ':_ParamUpdater._new_packet_cb',
                                            PRM + ':_ParamUpdater.run'],
               clause='every %s reply is delivered exactly once to the request it answers (same parameter id) and to no other, '
-                     'with several such requests outstanding' % api,
+                     'with several such requests outstanding; the callback gets what the device answered (any status byte for store / clear)' % api,
               bounded='three outstanding requests on three persistent parameters, answered in issue order')
     def k(c):
         ids = [c.int('id%d' % i, 0, 65535) for i in range(3)]
@@ -252,7 +325,8 @@ def _attribution(api):
             elif api == 'get_default_value':
                 deliver(c, cf, 3, "pack('<BHH', %d, id%d, v%d)" % (cmd, i, i))
             else:
-                deliver(c, cf, 3, "pack('<BHB', %d, id%d, 0)" % (cmd, i))
+                c.int('st%d' % i, 0, 255)           # the device's status byte: 0 = done, anything else = an errno
+                deliver(c, cf, 3, "pack('<BHB', %d, id%d, st%d)" % (cmd, i, i))
             c.ensure('reply-%s-released-the-updater' % n, 'not upd.wait_lock.locked()')
             c.ensure('delivered-once-to-own-request-only-%s' % n,
                      ' and '.join("len(sent('note_%s')) == %d" % (m, 1 if j <= i else 0) for j, m in enumerate('abc')))
@@ -262,7 +336,7 @@ def _attribution(api):
         elif api == 'get_default_value':
             c.ensure('default-values-attributed', ' and '.join("sent('note_%s')[0][1][1] == v%d" % (n, i) for i, n in enumerate('abc')))
         else:
-            c.ensure('status-attributed', ' and '.join("sent('note_%s')[0][1][1] is True" % n for n in 'abc'))
+            c.ensure('status-attributed', ' and '.join("sent('note_%s')[0][1][1] == (st%d == 0)" % (n, i) for i, n in enumerate('abc')))
         # a late duplicate of the first reply reaches nobody
         c.reset_trace()
         if api == 'persistent_get_state':
@@ -270,7 +344,7 @@ def _attribution(api):
         elif api == 'get_default_value':
             deliver(c, cf, 3, "pack('<BHH', %d, id0, v0)" % cmd)
         else:
-            deliver(c, cf, 3, "pack('<BHB', %d, id0, 0)" % cmd)
+            deliver(c, cf, 3, "pack('<BHB', %d, id0, st0)" % cmd)
         c.ensure('duplicate-reply-delivered-to-nobody', "len(calls('note_')) == 0")
     return k
 
@@ -365,3 +439,742 @@ def notification_during_misc(c):
     c.ensure('own-reply-releases', "not upd.wait_lock.locked() and len(sent('note')) == 1 and sent('note')[0][1] == ('g.a', True)")
     run_updater(c, upd)
     c.ensure('next-request-goes-out-afterwards', "len(sent('link.send_packet')) == 2 and bytes(sent('link.send_packet')[1][1][0].data) == pack('<H', id1)")
+
+
+# ---------------------------------------------------------------------------------------------------------------------
+# extension round: histories that start from the constructor state, both protocol generations end to end, callbacks
+# added and removed, every reply variant of the persistent queries, reconnects
+
+
+def _captured_done(captured):
+    """the completion callback the real code handed to the (stubbed) TocFetcher, by keyword or by position"""
+    args, kw = captured[0]
+    try:
+        for k2, v2 in kw.items():
+            if k2 == 'finished_callback':
+                return v2
+    except AttributeError:
+        pass
+    return args[4]
+
+
+@contract('C04', 'connect-history', [PRM + ':Param.refresh_toc', PRM + ':Param.request_update_of_all_params', PRM + ':Param._check_if_all_updated',
+                                    PRM + ':Param._param_updated', PRM + ':_ParamUpdater.request_param_update', PRM + ':_ParamUpdater.run',
+                                    PRM + ':_ParamUpdater._new_packet_cb', PRM + ':Param.set_value', PRM + ':Param.get_value'],
+          clause='from the constructor state, for every negotiated protocol version: the index width of read and write requests and the '
+                 'layout of the replies are those of the generation the platform reports (16 bit index from version 4 on, 8 bit before); '
+                 'the initial reads go out one at a time in table order, each answered before the next; get_value / set_value are '
+                 'available exactly when every parameter has been answered once ("all updated" signalled once, never again), and then '
+                 'transmit / return the typed values',
+          bounded='table of two parameters (uint16, int8); the table download itself (TocFetcher) is a stub - it is decided under C03')
+def connect_history(c):
+    c.int('ver', 0, 255)
+    cf, param, upd = world(c)
+    c.set(c.getfield(cf, 'platform'), '_protocolVersion', c.get('ver'))
+    v2 = bool(c.concretize('ver >= 4'))
+    captured = []
+    fetcher = c.ext('fetcher')
+
+    def mk(_i, args, kw):
+        captured.append((args, kw))
+        return fetcher
+    c.patch(PRM + ':TocFetcher', c.ext('TocFetcher', returns={'()': mk}))
+    all_updated = c.ext('all_updated')
+    c.invoke((c.getfield(param, 'all_updated'), 'add_callback'), all_updated)
+    done = c.ext('toc_done')
+    c.reset_trace()
+    c.call((param, 'refresh_toc'), done, c.ext('cache'))
+    c.ensure('refresh-starts-the-download-only', "raised is None and len(sent('fetcher.start')) == 1 and len(sent('link.send_packet')) == 0")
+    hi = 65535 if v2 else 255
+    c.int('id0', 0, hi), c.int('id1', 0, hi)
+    c.require('id0 != id1')
+    fill_toc(c, param, [(c.get('id0'), 0x09, 'g', 'a'), (c.get('id1'), 0x00, 'h', 'b')])     # what the download produces
+    c.call(_captured_done(captured))
+    c.ensure('table-complete-signalled-once', "raised is None and len(sent('toc_done')) == 1")
+    c.call((param, 'request_update_of_all_params'))                  # what Crazyflie._param_toc_updated_cb does next
+    c.ensure('one-read-per-parameter-queued', "raised is None and upd.request_queue.qsize() == 2 and len(sent('link.send_packet')) == 0")
+    idfmt = '<H' if v2 else '<B'
+    c.int('d0', 0, 65535), c.int('d1', -128, 127)
+    run_updater(c, upd)
+    c.ensure('first-read-on-the-wire', "len(sent('link.send_packet')) == 1 and sent('link.send_packet')[0][1][0].channel == 1 and "
+             "sent('link.send_packet')[0][1][0].port == 2 and bytes(sent('link.send_packet')[0][1][0].data) == pack('%s', id0)" % idfmt)
+    run_updater(c, upd)
+    c.ensure('second-read-waits-for-the-first-answer', "len(sent('link.send_packet')) == 1")
+    deliver(c, cf, 1, "pack('<HBH', id0, 0, d0)" if v2 else "pack('<BH', id0, d0)")
+    c.ensure('first-answer-cached-and-releases', "param.values['g']['a'] == str(d0) and not upd.wait_lock.locked()")
+    c.ensure('not-yet-all-updated', "len(sent('all_updated')) == 0 and not param._initialized.is_set()")
+    run_updater(c, upd)
+    c.ensure('second-read-on-the-wire', "len(sent('link.send_packet')) == 2 and sent('link.send_packet')[1][1][0].channel == 1 and "
+             "bytes(sent('link.send_packet')[1][1][0].data) == pack('%s', id1)" % idfmt)
+    deliver(c, cf, 1, "pack('<HBb', id1, 0, d1)" if v2 else "pack('<Bb', id1, d1)")
+    c.ensure('second-answer-cached-and-releases', "param.values['h']['b'] == str(d1) and not upd.wait_lock.locked()")
+    c.ensure('all-updated-signalled-once', "len(sent('all_updated')) == 1 and param._initialized.is_set()")
+    c.call((param, 'get_value'), 'h.b')
+    c.ensure('get_value-available-with-device-value', 'raised is None and result == str(d1)')
+    # a write in the generation that was negotiated
+    c.int('value', 0, 65535), c.int('dev', 0, 65535)
+    c.call((param, 'set_value'), 'g.a', c.get('value'))
+    c.ensure('set-accepted', 'raised is None')
+    run_updater(c, upd)
+    c.ensure('write-on-the-wire-index-width-of-the-generation', "len(sent('link.send_packet')) == 3 and sent('link.send_packet')[2][1][0].channel == 2 and "
+             "bytes(sent('link.send_packet')[2][1][0].data) == pack('%s', id0) + pack('<H', value)" % idfmt)
+    # a reply for the other parameter does not answer it, in either generation
+    deliver(c, cf, 2, "pack('%sb', id1, 5)" % idfmt)
+    c.ensure('foreign-reply-releases-nothing', "upd.wait_lock.locked() and param.values['g']['a'] == str(d0)")
+    deliver(c, cf, 2, "pack('%sH', id0, dev)" % idfmt)
+    c.ensure('write-answer-cached-and-releases', "param.values['g']['a'] == str(dev) and not upd.wait_lock.locked()")
+    c.call((param, 'get_value'), 'g.a')
+    c.ensure('get_value-returns-device-value', 'raised is None and result == str(dev)')
+    c.ensure('all-updated-never-signalled-again', "len(sent('all_updated')) == 1")
+
+
+@contract('C04', 'update-callbacks.add-remove', [PRM + ':Param.add_update_callback', PRM + ':Param.remove_update_callback', PRM + ':Param._param_updated',
+                                                PRM + ':Param.get_value'],
+          clause='the device value is passed once to every REGISTERED update callback: a removed callback (parameter or group level) is not '
+                 'called any more, the callbacks that stay registered still are, exactly once per answer; removing a callback that was never '
+                 'registered, or none, changes nothing; when a callback runs, get_value already returns the value it is given',
+          bounded='two parameters of one group and one of another; two parameter-level, two group-level, one global callback')
+def callbacks_add_remove(c):
+    c.int('id0', 0, 65535), c.int('id1', 0, 65535), c.int('id2', 0, 65535)
+    c.require('id0 != id1 and id1 != id2 and id0 != id2')
+    cf, param, upd = setup(c, [(c.get('id0'), 0x09, 'g', 'a'), (c.get('id1'), 0x09, 'g', 'b'), (c.get('id2'), 0x09, 'h', 'a')])
+    seen = []
+
+    def peek(_i, args, _k):
+        # an application callback that reads the parameter back synchronously
+        seen.append(c.invoke((param, 'get_value'), 'g.a'))
+        return None
+    cb1, cb2 = c.ext('cb1'), c.ext('cb2', returns={'()': peek})
+    cbg1, cbg2, cbh, cball, never = c.ext('cbg1'), c.ext('cbg2'), c.ext('cbh'), c.ext('cball'), c.ext('never')
+    c.invoke((param, 'add_update_callback'), 'g', 'a', cb1)
+    c.invoke((param, 'add_update_callback'), 'g', 'a', cb2)
+    c.invoke((param, 'add_update_callback'), 'g', None, cbg1)
+    c.invoke((param, 'add_update_callback'), 'g', None, cbg2)
+    c.invoke((param, 'add_update_callback'), 'h', None, cbh)
+    c.invoke((param, 'add_update_callback'), None, None, cball)
+    c.int('v1', 0, 65535), c.int('v2', 0, 65535), c.int('v3', 0, 65535), c.int('v4', 0, 65535)
+
+    def counts(tag, **want):
+        c.ensure(tag, ' and '.join("len(sent('%s')) == %d" % (n, k) for n, k in sorted(want.items())))
+    c.reset_trace()
+    deliver(c, cf, 3, "pack('<BHH', 1, id0, v1)")           # the device reports a new value of g.a
+    counts('all-registered-callbacks-once', cb1=1, cb2=1, cbg1=1, cbg2=1, cbh=0, cball=1, never=0)
+    c.let('seen0', seen[0] if seen else None)
+    c.ensure('get_value-inside-a-callback-is-the-new-value', 'seen0 == str(v1)')
+    c.ensure('name-and-value-passed', "all(e[1] == ('g.a', str(v1)) for e in trace if e[0].startswith('cb'))")
+    # removal of one parameter-level and one group-level callback; the calls that must change nothing
+    c.call((param, 'remove_update_callback'), 'g', 'a', cb1)
+    c.ensure('remove-parameter-callback-ok', 'raised is None')
+    c.call((param, 'remove_update_callback'), 'g', None, cbg1)
+    c.ensure('remove-group-callback-ok', 'raised is None')
+    c.call((param, 'remove_update_callback'), 'g', 'a', None)
+    c.ensure('remove-nothing-ok', 'raised is None')
+    c.call((param, 'remove_update_callback'), 'x', 'y', never)
+    c.ensure('remove-from-unknown-parameter-ok', 'raised is None')
+    c.call((param, 'remove_update_callback'), 'x', None, never)
+    c.ensure('remove-from-unknown-group-ok', 'raised is None')
+    c.reset_trace()
+    deliver(c, cf, 3, "pack('<BHH', 1, id0, v2)")
+    counts('removed-callbacks-silent-others-once', cb1=0, cb2=1, cbg1=0, cbg2=1, cbh=0, cball=1, never=0)
+    c.ensure('name-and-value-passed-2', "all(e[1] == ('g.a', str(v2)) for e in trace if e[0].startswith('cb'))")
+    c.reset_trace()
+    deliver(c, cf, 3, "pack('<BHH', 1, id1, v3)")           # g.b: group-level and global callbacks only
+    counts('other-parameter-of-the-group', cb1=0, cb2=0, cbg1=0, cbg2=1, cbh=0, cball=1)
+    c.ensure('name-and-value-passed-3', "all(e[1] == ('g.b', str(v3)) for e in trace if e[0].startswith('cb'))")
+    c.reset_trace()
+    deliver(c, cf, 3, "pack('<BHH', 1, id2, v4)")           # h.a: same name as g.a, other group
+    counts('same-name-in-other-group', cb1=0, cb2=0, cbg1=0, cbg2=0, cbh=1, cball=1)
+    # the removed callback can be registered again
+    c.invoke((param, 'add_update_callback'), 'g', 'a', cb1)
+    c.reset_trace()
+    deliver(c, cf, 3, "pack('<BHH', 1, id0, v4)")
+    counts('registered-again', cb1=1, cb2=1, cbg1=0, cbg2=1, cbh=0, cball=1)
+
+
+ENOENT = 2
+SIZES = {0x08: 1, 0x09: 2, 0x0A: 4, 0x0B: 8, 0x00: 1, 0x01: 2, 0x02: 4, 0x03: 8, 0x06: 4, 0x07: 8}
+
+
+def _same(code, a, b):
+    return ('same_float(%s, %s)' if code in (0x06, 0x07) else '%s == %s') % (a, b)
+
+
+def _state_variants(code):
+    fmt, size = TYPES[code][0], SIZES[code]
+
+    @contract('C04', 'persistent_get_state.reply-variants.%s' % NAMES[code], [PRM + ':Param.persistent_get_state', PRM + ':_ParamUpdater._new_packet_cb',
+                                                                            PRM + ':_ParamUpdater.run'],
+              clause='the persistent-state reply is decoded in the declared type of the parameter and delivered exactly once to the request it '
+                     'answers: not stored -> (False, default, None); stored -> (True, default, stored) in the order the device sends them; '
+                     'error status -> None; afterwards the request is finished (updater released, a duplicate reaches nobody)',
+              bounded='one request; the three reply variants the firmware defines')
+    def k(c):
+        c.int('id0', 0, 65535)
+        cf, param, upd = setup(c, [(c.get('id0'), code | 0x10, 'g', 'a')])
+        c.invoke((c.invoke((c.getfield(param, 'toc'), 'get_element'), 'g', 'a'), 'mark_persistent'))
+        note = c.ext('note')
+        c.call((param, 'persistent_get_state'), 'g.a', note)
+        c.ensure('request-accepted', 'raised is None')
+        c.reset_trace()
+        run_updater(c, upd)
+        c.ensure('request-on-wire', "len(sent('link.send_packet')) == 1 and bytes(sent('link.send_packet')[0][1][0].data) == pack('<BH', 4, id0)")
+        variant = c.choice('variant', ['not-stored', 'stored', 'error'])
+        c.bytes('raw_default', size), c.bytes('raw_stored', size)
+        if variant == 'not-stored':
+            deliver(c, cf, 3, "pack('<BHB', 4, id0, 0) + raw_default")
+        elif variant == 'stored':
+            deliver(c, cf, 3, "pack('<BHB', 4, id0, 1) + raw_default + raw_stored")
+        else:
+            deliver(c, cf, 3, "pack('<BHB', 4, id0, %d)" % ENOENT)
+        c.ensure('delivered-once-to-the-request', "len(sent('note')) == 1 and sent('note')[0][1][0] == 'g.a'")
+        c.ensure('updater-released', 'not upd.wait_lock.locked()')
+        if c.concretize("len(sent('note'))") == 1:
+            c.snapshot('state', "sent('note')[0][1][1]")
+            if variant == 'error':
+                c.ensure('error-reported-as-none', 'state is None')
+            else:
+                c.snapshot('want_default', "unpack('%s', raw_default)[0]" % fmt)
+                c.snapshot('want_stored', "unpack('%s', raw_stored)[0]" % fmt)
+                c.ensure('default-value-typed', 'state is not None and ' + _same(code, 'state.default_value', 'want_default'))
+                if variant == 'stored':
+                    c.ensure('stored-value-typed', 'state.is_stored is True and ' + _same(code, 'state.stored_value', 'want_stored'))
+                else:
+                    c.ensure('nothing-stored', 'state.is_stored is False and state.stored_value is None')
+        c.reset_trace()
+        deliver(c, cf, 3, "pack('<BHB', 4, id0, 0) + raw_default")
+        c.ensure('duplicate-reply-delivered-to-nobody', "len(calls('note')) == 0 and not upd.wait_lock.locked()")
+    return k
+
+
+for _code in (0x09, 0x02, 0x0B, 0x06):
+    _state_variants(_code)
+
+
+def _default_variants(code):
+    fmt, size = TYPES[code][0], SIZES[code]
+    variants = ['value', 'error'] if size != 1 else ['value']     # a 1-byte value reply and the error reply are the same 4 bytes
+
+    @contract('C04', 'get_default_value.reply-variants.%s' % NAMES[code], [PRM + ':Param.get_default_value', PRM + ':_ParamUpdater._new_packet_cb',
+                                                                         PRM + ':_ParamUpdater.run'],
+              clause='the default-value reply is decoded in the declared type of the parameter and delivered exactly once to the request it '
+                     'answers; the error reply (status ENOENT instead of a value) is reported as None, once; afterwards the request is finished',
+              bounded='one request; value reply and error reply' + ('' if size != 1 else ' (value reply only: for 1-byte types the protocol '
+                                                                    'cannot tell the error reply from the value 2)'))
+    def k(c):
+        c.int('id0', 0, 65535)
+        cf, param, upd = setup(c, [(c.get('id0'), code, 'g', 'a')])
+        note = c.ext('note')
+        c.call((param, 'get_default_value'), 'g.a', note)
+        c.ensure('request-accepted', 'raised is None')
+        c.reset_trace()
+        run_updater(c, upd)
+        c.ensure('request-on-wire', "len(sent('link.send_packet')) == 1 and bytes(sent('link.send_packet')[0][1][0].data) == pack('<BH', 6, id0)")
+        variant = c.choice('variant', variants)
+        c.bytes('raw', size)
+        if variant == 'value':
+            deliver(c, cf, 3, "pack('<BH', 6, id0) + raw")
+        else:
+            deliver(c, cf, 3, "pack('<BHB', 6, id0, %d)" % ENOENT)
+        c.ensure('delivered-once-to-the-request', "len(sent('note')) == 1 and sent('note')[0][1][0] == 'g.a'")
+        c.ensure('updater-released', 'not upd.wait_lock.locked()')
+        if c.concretize("len(sent('note'))") >= 1:
+            c.snapshot('got', "sent('note')[0][1][1]")
+            if variant == 'error':
+                c.ensure('error-reported-as-none', 'got is None')
+            else:
+                c.snapshot('want', "unpack('%s', raw)[0]" % fmt)
+                c.ensure('default-value-typed', 'got is not None and ' + _same(code, 'got', 'want'))
+        c.reset_trace()
+        deliver(c, cf, 3, "pack('<BH', 6, id0) + raw")
+        c.ensure('duplicate-reply-delivered-to-nobody', "len(calls('note')) == 0 and not upd.wait_lock.locked()")
+    return k
+
+
+for _code in (0x09, 0x00, 0x03, 0x06):
+    _default_variants(_code)
+
+
+# FINDING (unchanged tree, replays natively): the persistent / default-value queries register their reply callback when the
+# request is ISSUED (not when it is transmitted) and match replies by command + parameter id only.  With two requests for the same
+# parameter outstanding, the first reply is delivered to BOTH requests' callbacks (both unregister), and the second reply - the one
+# that answers the second request - is delivered to nobody: the second caller is given the answer of the first request.
+# The contracts below state the clause and FAIL on the pinned tree; until the maintainer of this directory has decided between a
+# fix: commit and a known_findings.json entry they run in the thorough tier only.
+def _same_parameter_twice(api):
+    cmd = MISC[api]
+
+    @contract('C04', 'same-parameter-twice.' + api, [PRM + ':Param.' + api, PRM + ':_ParamUpdater._new_packet_cb', PRM + ':_ParamUpdater.run'],
+              clause='several outstanding %s queries: every reply is delivered exactly once to the request it answers and to no other - also '
+                     'when two requests for the SAME parameter are outstanding (two application threads asking for the same parameter): the '
+                     'first reply answers the first request only, the second reply the second' % api,
+              bounded='two outstanding requests for one parameter', thorough_only=True)
+    def k(c):
+        c.int('id0', 0, 65535)
+        cf, param, upd = setup(c, [(c.get('id0'), 0x09 | 0x10, 'g', 'a')])
+        c.invoke((c.invoke((c.getfield(param, 'toc'), 'get_element'), 'g', 'a'), 'mark_persistent'))
+        first, second = c.ext('first'), c.ext('second')
+        c.call((param, api), 'g.a', first)
+        c.call((param, api), 'g.a', second)
+        c.ensure('both-accepted', 'raised is None and upd.request_queue.qsize() == 2')
+        c.reset_trace()
+        c.int('v0', 0, 65535), c.int('v1', 0, 65535)
+        c.require('v0 != v1')        # the value changed between the two answers
+
+        def reply(i):
+            if api == 'persistent_get_state':
+                deliver(c, cf, 3, "pack('<BHBH', %d, id0, 0, v%d)" % (cmd, i))
+            elif api == 'get_default_value':
+                deliver(c, cf, 3, "pack('<BHH', %d, id0, v%d)" % (cmd, i))
+            else:
+                deliver(c, cf, 3, "pack('<BHB', %d, id0, v%d %% 2)" % (cmd, i))
+        run_updater(c, upd)
+        c.ensure('first-request-on-wire-only', "len(sent('link.send_packet')) == 1")
+        reply(0)
+        c.ensure('first-reply-to-first-request-only', "len(sent('first')) == 1 and len(sent('second')) == 0")
+        run_updater(c, upd)
+        c.ensure('second-request-on-wire', "len(sent('link.send_packet')) == 2")
+        reply(1)
+        c.ensure('second-reply-to-second-request-only', "len(sent('first')) == 1 and len(sent('second')) == 1")
+        if api == 'persistent_get_state':
+            c.ensure('second-request-gets-the-second-answer', "sent('second')[0][1][1].default_value == v1")
+        elif api == 'get_default_value':
+            c.ensure('second-request-gets-the-second-answer', "sent('second')[0][1][1] == v1")
+        else:
+            c.ensure('second-request-gets-the-second-answer', "sent('second')[0][1][1] == (v1 % 2 == 0)")
+    return k
+
+
+for _api in MISC:
+    _same_parameter_twice(_api)
+
+
+URI = 'radio://0/80/2M'
+
+
+@contract('C04', 'reconnect', [PRM + ':Param._disconnected', PRM + ':Param._connection_requested', PRM + ':_ParamUpdater.close', PRM + ':_ParamUpdater.run',
+                              PRM + ':_ParamUpdater._new_packet_cb', PRM + ':Param.set_value', PRM + ':Param.get_value'],
+          clause='nothing of a previous connection is attributed to the next one on the same object: requests that were pending or queued when '
+                 'the link went away are never transmitted afterwards, the first request of the next connection goes out at once (the wait for '
+                 'the lost answer does not survive), values cached from the previous device are not returned, and a late reply of the previous '
+                 'connection neither answers a request of the new one nor is cached',
+          bounded='one request on the wire and one queued at the time of the disconnect; two schedules of the updater thread: it has already '
+                  'taken the queued request and waits for the lock / it has not run yet')
+def reconnect(c):
+    c.int('id0', 0, 65535), c.int('id1', 0, 65535)
+    c.require('id0 != id1')
+    cf, param, upd = setup(c, [(c.get('id0'), 0x09, 'g', 'a'), (c.get('id1'), 0x09, 'g', 'b')])
+    c.int('old_a', 0, 65535), c.int('nv', 0, 65535), c.int('late', 0, 65535), c.int('dev', 0, 65535)
+    c.let('va', 0x1234), c.let('vb', 0x5678)        # what the old connection's requests carry does not matter here
+    deliver(c, cf, 3, "pack('<BHH', 1, id0, old_a)")
+    c.call((param, 'get_value'), 'g.a')
+    c.require('raised is None and result == str(old_a)')
+    c.call((param, 'set_value'), 'g.a', c.get('va'))
+    c.call((param, 'set_value'), 'g.b', c.get('vb'))
+    c.reset_trace()
+    run_updater(c, upd)
+    c.require("len(sent('link.send_packet')) == 1 and upd.wait_lock.locked()")
+    schedule = c.choice('schedule', ['next-request-taken', 'next-request-still-queued'])
+
+    def link_goes_away():
+        c.set(cf, 'link', None)                     # as close_link / _link_error_cb do
+        c.invoke((c.getfield(cf, 'disconnected'), 'call'), URI)
+    if schedule == 'next-request-taken':
+        # the updater thread has dequeued the second request and blocks in wait_lock.acquire(); meanwhile the link is closed
+        c.getfield(upd, 'wait_lock').on_block = link_goes_away
+        c.call((upd, 'run'))
+        c.getfield(upd, 'wait_lock').on_block = None
+        c.ensure('updater-back-to-waiting-for-requests', "raised == 'Deadlock' and not upd.wait_lock.locked()")
+    else:
+        link_goes_away()
+    c.ensure('nothing-more-transmitted', "len([n for n in calls() if n.endswith('send_packet')]) == 1")
+    # the next connection of the same object; the device numbers its parameters differently
+    c.call((c.getfield(cf, 'connection_requested'), 'call'), URI)
+    c.ensure('connection-request-handled', 'raised is None')
+    c.set(cf, 'link', c.ext('link', attrs={'needs_resending': False}))
+    c.call((param, 'get_value'), 'g.a')
+    c.ensure('value-of-the-previous-device-not-returned', 'raised is not None')
+    fill_toc(c, param, [(c.get('id1'), 0x09, 'g', 'a'), (c.get('id0'), 0x09, 'g', 'b')])
+    c.invoke((c.getfield(param, '_initialized'), 'set'))
+    c.call((param, 'get_value'), 'g.a')
+    c.ensure('no-value-that-this-device-has-not-reported', 'raised is not None')
+    c.reset_trace()
+    c.call((param, 'set_value'), 'g.b', c.get('nv'))
+    c.ensure('new-request-accepted', 'raised is None')
+    run_updater(c, upd)
+    c.ensure('only-the-new-request-is-transmitted', "len(sent('link.send_packet')) == 1 and "
+             "bytes(sent('link.send_packet')[0][1][0].data) == pack('<HH', id0, nv) and sent('link.send_packet')[0][1][0].channel == 2")
+    deliver(c, cf, 2, "pack('<HH', id1, late)")           # the answer to the old session's second request arrives now
+    c.ensure('late-reply-of-the-previous-connection-ignored', "upd.wait_lock.locked() and 'a' not in param.values.get('g', {})")
+    deliver(c, cf, 2, "pack('<HH', id0, dev)")
+    c.ensure('own-reply-releases-and-is-cached', "not upd.wait_lock.locked() and param.values['g']['b'] == str(dev)")
+    run_updater(c, upd)
+    c.ensure('nothing-of-the-previous-connection-follows', "len(sent('link.send_packet')) == 1")
+
+
+def _exchange_step(v2):
+    idfmt, hi = ('<H', 65535) if v2 else ('<B', 255)
+
+    @contract('C04', 'exchange.step.%s' % ('v2' if v2 else 'v1'), [PRM + ':_ParamUpdater.run', PRM + ':_ParamUpdater._new_packet_cb', PRM + ':Param._param_updated',
+                                                                  PRM + ':_ParamUpdater.request_param_setvalue', PRM + ':_ParamUpdater.send_param_misc'],
+              clause='one step of the request/answer exchange, for ANY request at the head of the queue (read, write or misc command, any '
+                     'parameter index) and ANY well-formed packet from the device (any channel, command, index): the request is transmitted '
+                     'unchanged, exactly once, and nothing else is transmitted until a packet of the same channel that echoes its index (and, '
+                     'on the misc channel, its command) arrives; exactly such a packet lets the next request out; a value is cached only from '
+                     'the answer of a read / write and from value-changed notifications, under the parameter the device names.  By induction '
+                     'over the queue this is "one at a time, in issue order, each answered before the next" for every sequence of requests',
+              bounded='the request behind the head is a read; the READ-reply-answers-WRITE (and vice versa) case is excluded here: it is the '
+                      'recorded finding stale-read-reply-during-write')
+    def k(c):
+        c.int('idx', 0, hi)
+        cf, param, upd = setup(c, [(c.get('idx'), 0x09, 'g', 'a')], v2)
+        c.int('rid', 0, hi), c.int('pid', 0, hi), c.int('next_id', 0, hi)
+        rc = c.concretize(c.int('rc', 1, 3 if v2 else 2))
+        pc = c.concretize(c.int('pc', 0, 3 if v2 else 2))
+        c.int('rcmd', 0, 255), c.int('pcmd', 0, 255), c.int('wv', 0, 65535), c.int('pv', 0, 65535)
+        c.require('rcmd != 1')                      # command 1 is the device's notification, never a request
+        if rc == 1:
+            c.snapshot('rq_data', "pack('%s', rid)" % idfmt)
+        elif rc == 2:
+            c.snapshot('rq_data', "pack('%sH', rid, wv)" % idfmt)
+        else:
+            c.snapshot('rq_data', "pack('<BH', rcmd, rid)")
+        rq = c.new(STK + ':CRTPPacket', (2 << 4) | rc, c.get('rq_data'))
+        c.let('rq', rq)
+        c.invoke((upd, 'send_param_misc' if rc == 3 else 'request_param_setvalue'), rq)
+        c.invoke((upd, 'request_param_update'), c.get('next_id'))
+        c.reset_trace()
+        run_updater(c, upd)
+        c.ensure('head-request-transmitted-unchanged-once', "len(sent('link.send_packet')) == 1 and sent('link.send_packet')[0][1][0] is rq and "
+                 "bytes(rq.data) == bytes(rq_data) and rq.port == 2 and rq.channel == %d" % rc)
+        run_updater(c, upd)
+        c.ensure('next-request-waits', "len(sent('link.send_packet')) == 1 and upd.wait_lock.locked()")
+        if pc == 1:
+            reply = "pack('%sBH', pid, 0, pv)" % idfmt if v2 else "pack('<BH', pid, pv)"
+        elif pc == 2:
+            reply = "pack('%sH', pid, pv)" % idfmt
+        elif pc == 3:
+            reply = "pack('<BHH', pcmd, pid, pv)"
+        else:
+            reply = "pack('<BHH', pcmd, pid, pv)"       # TOC channel: never an answer
+        if rc in (1, 2) and pc in (1, 2) and pc != rc:
+            c.require('pid != rid')
+        deliver(c, cf, pc, reply)
+        if pc == rc:
+            c.snapshot('answers', 'pid == rid and pcmd == rcmd' if rc == 3 else 'pid == rid')
+        else:
+            c.let('answers', False)
+        c.ensure('released-iff-answered', 'upd.wait_lock.locked() == (not answers)')
+        if pc in (1, 2):
+            c.snapshot('carries_value', 'answers')
+        elif pc == 3:
+            c.snapshot('carries_value', 'pcmd == 1')
+        else:
+            c.let('carries_value', False)
+        c.ensure('cached-iff-a-value-for-a-known-parameter', "('g' in param.values) == (carries_value and pid == idx)")
+        c.ensure('cached-value-is-the-device-value', "implies('g' in param.values, param.values.get('g', {}).get('a') == str(pv))")
+        run_updater(c, upd)
+        c.ensure('next-request-out-iff-answered', "len(sent('link.send_packet')) == (2 if answers else 1)")
+        c.ensure('next-request-is-the-queued-read', "implies(answers, sent('link.send_packet')[-1][1][0].channel == 1 and "
+                 "bytes(sent('link.send_packet')[-1][1][0].data) == pack('%s', next_id))" % idfmt)
+    return k
+
+
+_exchange_step(True)
+_exchange_step(False)
+
+
+@contract('C04', 'before-fully-connected', [PRM + ':Param.set_value', PRM + ':Param.get_value', CF + ':Crazyflie.is_called_by_incoming_handler_thread'],
+          clause='whatever the reply delays: a set / get issued before every parameter has been answered once does not transmit or return anything '
+                 'prematurely - from an application thread it waits for the connection to complete and then proceeds with the typed value, or '
+                 'gives up with an exception and no transmission; from the thread that delivers the answers it is refused at once WITHOUT '
+                 'waiting (that thread is the only one that can deliver the answers the wait is for)',
+          bounded='one uint16 parameter')
+def before_fully_connected(c):
+    c.int('id0', 0, 65535), c.int('cached', 0, 65535), c.int('value', 0, 65535)
+    cf, param, upd = setup(c, [(c.get('id0'), 0x09, 'g', 'a')])
+    deliver(c, cf, 3, "pack('<BHH', 1, id0, cached)")
+    who = c.choice('caller', ['dispatcher-thread', 'application-thread'])
+    completes = c.choice('connection_completes_while_waiting', [True, False])
+    api = c.choice('api', ['set_value', 'get_value'])
+    c.set(param, '_initialized', c.ext('initialized', returns={'is_set': False, 'isSet': False, 'wait': completes}))
+    me = c.getfield(cf, 'incoming') if who == 'dispatcher-thread' else c.ext('application_thread')
+    c.patch(CF + ':current_thread', c.ext('current_thread', returns={'()': me}))
+    c.reset_trace()
+    if api == 'set_value':
+        c.call((param, 'set_value'), 'g.a', c.get('value'))
+    else:
+        c.call((param, 'get_value'), 'g.a')
+    failed = c.get('raised') is not None
+    if who == 'dispatcher-thread':
+        c.ensure('refused-at-once-without-waiting', "raised == 'Exception' and len(sent('initialized.wait')) == 0")
+        c.ensure('nothing-queued', 'upd.request_queue.qsize() == 0')
+    elif not completes:
+        c.ensure('gives-up-after-waiting', "raised == 'Exception' and len(sent('initialized.wait')) >= 1")
+        c.ensure('nothing-queued', 'upd.request_queue.qsize() == 0')
+    elif api == 'get_value':
+        c.ensure('waits-then-returns-the-device-value', "raised is None and len(sent('initialized.wait')) >= 1 and result == str(cached)")
+    else:
+        c.ensure('waits-then-queues', "raised is None and len(sent('initialized.wait')) >= 1 and upd.request_queue.qsize() == 1")
+        run_updater(c, upd)
+        c.ensure('typed-value-transmitted', "len(sent('link.send_packet')) == 1 and bytes(sent('link.send_packet')[0][1][0].data) == pack('<HH', id0, value)")
+    if failed:
+        run_updater(c, upd)
+        c.ensure('nothing-transmitted', "len(sent('link.send_packet')) == 0")
+
+
+@contract('C04', 'read-and-queries.unknown-parameter', [PRM + ':Param.request_param_update', PRM + ':Param.persistent_store', PRM + ':Param.persistent_clear',
+                                                       PRM + ':Param.persistent_get_state', PRM + ':Param.get_default_value', 'cflib.crazyflie.toc:Toc.get_element_id',
+                                                       'cflib.crazyflie.toc:Toc.get_element_by_complete_name'],
+          clause='unknown parameters are refused without any transmission - also for reads and for the persistent / default-value queries: no '
+                 'request for some other parameter goes out in their place and no success is reported')
+def unknown_parameter(c):
+    cf, param, upd = setup(c, [(0, 0x09 | 0x10, 'g', 'a'), (1, 0x09 | 0x10, 'h', 'b')])
+    for g, n in (('g', 'a'), ('h', 'b')):
+        c.invoke((c.invoke((c.getfield(param, 'toc'), 'get_element'), g, n), 'mark_persistent'))
+    api = c.choice('api', ['request_param_update', 'persistent_store', 'persistent_clear', 'persistent_get_state', 'get_default_value'])
+    name = c.choice('name', ['g.b', 'x.a', 'nodot', 'g.a.a'])
+    note = c.ext('note')
+    c.reset_trace()
+    if api == 'request_param_update':
+        c.call((param, api), name)
+    else:
+        c.call((param, api), name, note)
+    c.ensure('refused-or-failure-reported', "raised is not None or (len(sent('note')) == 1 and sent('note')[0][1][1] in (False, None))")
+    c.ensure('no-success-reported', "all(e[1][1] in (False, None) for e in trace if e[0] == 'note')")
+    c.ensure('nothing-queued', 'upd.request_queue.qsize() == 0')
+    run_updater(c, upd)
+    c.ensure('nothing-transmitted', "len(sent('link.send_packet')) == 0")
+
+
+@contract('C04', 'concurrent-issue', SET_F + [PRM + ':_ParamUpdater._new_packet_cb', PRM + ':Param.request_param_update'],
+          clause='requests issued from several threads go on the wire one at a time, in the order in which they were queued, each one intact '
+                 '(index and typed value of ITS caller) and each answered before the next is sent - also when a second thread issues its '
+                 'request while the first one is between building its packet and queueing it, and when further requests are issued while '
+                 'the updater thread is inside the transmitting call',
+          bounded='explicit schedules: thread B runs its whole set_value inside thread A\'s queue.put; threads C (set) and D (read) run inside '
+                  'the link driver\'s send_packet of the first transmission; pre-emption inside queue.Queue itself is assumed atomic; '
+                  'parameter indices symbolic, the three written values concrete and distinct')
+def concurrent_issue(c):
+    ids = [c.int('id%d' % i, 0, 65535) for i in range(4)]
+    c.require('id0 != id1 and id0 != id2 and id0 != id3 and id1 != id2 and id1 != id3 and id2 != id3')
+    cf, param, upd = setup(c, [(ids[0], 0x09, 'g', 'a'), (ids[1], 0x02, 'g', 'b'), (ids[2], 0x08, 'h', 'c'), (ids[3], 0x01, 'h', 'd')])
+    # distinct concrete values: the schedule is the subject here, the encoding of every value is decided by set_value.*
+    c.let('va', 0xBEEF), c.let('vb', -123456789), c.let('vc', 200)
+    realq = c.getfield(upd, 'request_queue')
+    st = {'b_done': False, 'cd_done': False}
+
+    def put(_i, args, _k):
+        if not st['b_done']:
+            st['b_done'] = True
+            c.invoke((param, 'set_value'), 'g.b', c.get('vb'))        # thread B, completely, before thread A's put takes effect
+        c.invoke((realq, 'put'), args[0])
+        return None
+    c.set(upd, 'request_queue', c.ext('rq_shared', returns={'put': put}))
+    c.call((param, 'set_value'), 'g.a', c.get('va'))                    # thread A
+    c.ensure('both-accepted', 'raised is None')
+    c.set(upd, 'request_queue', realq)
+    c.ensure('both-queued-nothing-sent', "upd.request_queue.qsize() == 2 and len(sent('link.send_packet')) == 0")
+
+    def send(_i, args, _k):
+        if not st['cd_done']:
+            st['cd_done'] = True
+            c.invoke((param, 'set_value'), 'h.c', c.get('vc'))        # thread C
+            c.invoke((param, 'request_param_update'), 'h.d')          # thread D
+        return None
+    c.set(cf, 'link', c.ext('link', attrs={'needs_resending': False}, returns={'send_packet': send}))
+    c.reset_trace()
+    run_updater(c, upd)
+    c.ensure('first-queued-first-out-intact', "len(sent('link.send_packet')) == 1 and sent('link.send_packet')[0][1][0].channel == 2 and "
+             "bytes(sent('link.send_packet')[0][1][0].data) == pack('<Hi', id1, vb)")
+    run_updater(c, upd)
+    c.ensure('others-wait', "len(sent('link.send_packet')) == 1 and upd.request_queue.qsize() == 3")
+    deliver(c, cf, 2, "pack('<Hi', id1, vb)")
+    run_updater(c, upd)
+    c.ensure('second-queued-second-out-intact', "len(sent('link.send_packet')) == 2 and sent('link.send_packet')[1][1][0].channel == 2 and "
+             "bytes(sent('link.send_packet')[1][1][0].data) == pack('<HH', id0, va)")
+    deliver(c, cf, 2, "pack('<HH', id0, va)")
+    run_updater(c, upd)
+    c.ensure('third-out-intact', "len(sent('link.send_packet')) == 3 and sent('link.send_packet')[2][1][0].channel == 2 and "
+             "bytes(sent('link.send_packet')[2][1][0].data) == pack('<HB', id2, vc)")
+    run_updater(c, upd)
+    c.ensure('read-waits-for-the-answer', "len(sent('link.send_packet')) == 3")
+    deliver(c, cf, 2, "pack('<HB', id2, vc)")
+    run_updater(c, upd)
+    c.ensure('read-last', "len(sent('link.send_packet')) == 4 and sent('link.send_packet')[3][1][0].channel == 1 and "
+             "bytes(sent('link.send_packet')[3][1][0].data) == pack('<H', id3)")
+    c.int('vd', -2 ** 15, 2 ** 15 - 1)
+    deliver(c, cf, 1, "pack('<HBh', id3, 0, vd)")
+    c.ensure('every-value-attributed-to-its-parameter', "param.values['g']['a'] == str(va) and param.values['g']['b'] == str(vb) and "
+             "param.values['h']['c'] == str(vc) and param.values['h']['d'] == str(vd) and not upd.wait_lock.locked() and upd.request_queue.qsize() == 0")
+
+
+def _retry(v2):
+    idfmt, hi = ('<H', 65535) if v2 else ('<B', 255)
+
+    @contract('C04', 'retry-until-answered.%s' % ('v2' if v2 else 'v1'), [PRM + ':_ParamUpdater.run', PRM + ':_ParamUpdater._new_packet_cb', CF + ':Crazyflie.send_packet',
+                                                                        CF + ':Crazyflie._check_for_answers', CF + ':Crazyflie._no_answer_do_retry'],
+              clause='on a link that needs resending, a request that is not answered in time is retransmitted unchanged (the same request, not '
+                     'the next one); once the device has answered - with whatever value it holds, which need not be the requested one - the '
+                     'request is finished: no timer of it transmits anything any more, and the next request goes out',
+              bounded='one retransmission; read, write' + (' and misc (persistent store) request' if v2 else '') + '; the timers are fired by the contract')
+    def k(c):
+        c.int('id0', 0, hi), c.int('id1', 0, hi)
+        c.require('id0 != id1')
+        cf, param, upd = setup(c, [(c.get('id0'), 0x09 | 0x10, 'g', 'a'), (c.get('id1'), 0x09, 'g', 'b')], v2)
+        c.invoke((c.invoke((c.getfield(param, 'toc'), 'get_element'), 'g', 'a'), 'mark_persistent'))
+        c.use_stubs(CF, ['Timer'])
+        c.set(cf, 'link', c.ext('link', attrs={'needs_resending': True}))
+        kind = c.choice('kind', ['write', 'read', 'misc'] if v2 else ['write', 'read'])
+        c.int('value', 0, 65535), c.int('dev', 0, 65535)
+        if kind == 'write':
+            c.call((param, 'set_value'), 'g.a', c.get('value'))
+            c.snapshot('want', "pack('%sH', id0, value)" % idfmt)
+        elif kind == 'read':
+            c.call((param, 'request_param_update'), 'g.a')
+            c.snapshot('want', "pack('%s', id0)" % idfmt)
+        else:
+            c.call((param, 'persistent_store'), 'g.a', c.ext('note'))
+            c.snapshot('want', "pack('<BH', 3, id0)")
+        c.require('raised is None')
+        c.call((param, 'request_param_update'), 'g.b')
+        c.reset_trace()
+        run_updater(c, upd)
+        c.ensure('transmitted-once-retry-armed', "len(sent('link.send_packet')) == 1 and bytes(sent('link.send_packet')[0][1][0].data) == bytes(want) and len(sent('Timer')) == 1")
+        c.snapshot('timers', "sent('Timer')")
+        for e in c.get('timers'):
+            c.call(e[1][1])                      # no answer within the timeout
+        c.ensure('same-request-retransmitted-unchanged', "len(sent('link.send_packet')) == 2 and bytes(sent('link.send_packet')[1][1][0].data) == bytes(want) and "
+                 "sent('link.send_packet')[1][1][0].channel == sent('link.send_packet')[0][1][0].channel and upd.wait_lock.locked()")
+        if kind == 'write':
+            deliver(c, cf, 2, "pack('%sH', id0, dev)" % idfmt)
+        elif kind == 'read':
+            deliver(c, cf, 1, ("pack('<HBH', id0, 0, dev)" if v2 else "pack('<BH', id0, dev)"))
+        else:
+            deliver(c, cf, 3, "pack('<BHB', 3, id0, 0)")
+        c.ensure('answer-releases', 'not upd.wait_lock.locked()')
+        c.snapshot('n_before', "len([n for n in calls() if n.endswith('send_packet')])")
+        c.set(cf, 'link', c.ext('link', attrs={'needs_resending': True}))
+        c.snapshot('timers', "sent('Timer')")
+        for e in c.get('timers'):
+            c.call(e[1][1])                      # every timer of the answered request fires late (cancel lost the race)
+        c.ensure('nothing-retransmitted-after-the-answer', "len([n for n in calls() if n.endswith('send_packet')]) == n_before and len(sent('Timer')) == len(timers)")
+        run_updater(c, upd)
+        c.ensure('next-request-goes-out', "len([n for n in calls() if n.endswith('send_packet')]) == n_before + 1 and "
+                 "bytes(sent('link.send_packet')[-1][1][0].data) == pack('%s', id1)" % idfmt)
+    return k
+
+
+_retry(True)
+_retry(False)
+
+
+def _reply_typed(code):
+    fmt, size = TYPES[code][0], SIZES[code]
+
+    @contract('C04', 'reply-decoding.%s' % NAMES[code], [PRM + ':Param._param_updated', PRM + ':_ParamUpdater._new_packet_cb', PRM + ':Param.get_value'],
+              clause='once the device has answered, the cached value, the value returned by get_value and the value passed once to the update '
+                     'callback equal the device value decoded in the declared type of the parameter - for the answer of a write, the answer '
+                     'of a read (status byte between index and value) and a value-changed notification alike',
+              bounded='any bit pattern of the type as device value' + (' (float types: eight boundary / ordinary bit patterns - the text form '
+                                                                      'of a symbolic float is outside the engine)' if code in (0x06, 0x07) else ''))
+    def k(c):
+        c.int('id0', 0, 65535)
+        cf, param, upd = setup(c, [(c.get('id0'), code, 'g', 'a')])
+        cb = c.ext('cb')
+        c.invoke((param, 'add_update_callback'), 'g', 'a', cb)
+        how = c.choice('how', ['write-answer', 'read-answer', 'notification'])
+        if code in (0x06, 0x07):
+            pats = [0.0, -0.0, 1.5, -2.75, float('inf'), float('nan'), 3.4028234663852886e+38, 1e-45]
+            import struct as _s
+            c.let('raw', _s.pack(fmt, c.choice('pattern', pats)))
+        else:
+            c.bytes('raw', size)
+        if how == 'write-answer':
+            c.call((param, 'set_value'), 'g.a', 1)
+        elif how == 'read-answer':
+            c.call((param, 'request_param_update'), 'g.a')
+        c.reset_trace()
+        if how != 'notification':
+            run_updater(c, upd)
+            c.require("len(sent('link.send_packet')) == 1")
+        if how == 'write-answer':
+            deliver(c, cf, 2, "pack('<H', id0) + raw")
+        elif how == 'read-answer':
+            deliver(c, cf, 1, "pack('<HB', id0, 0) + raw")
+        else:
+            deliver(c, cf, 3, "pack('<BH', 1, id0) + raw")
+        c.snapshot('dev', "unpack('%s', raw)[0]" % fmt)
+        c.ensure('cached-typed-device-value', "param.values['g']['a'] == str(dev) and not upd.wait_lock.locked()")
+        c.ensure('callback-once-with-it', "len(sent('cb')) == 1 and sent('cb')[0][1] == ('g.a', str(dev))")
+        c.call((param, 'get_value'), 'g.a')
+        c.ensure('get_value-returns-it', 'raised is None and result == str(dev)')
+    return k
+
+
+for _code in TYPES:
+    _reply_typed(_code)
+
+
+@contract('C04', 'toc-entry.flags', [PRM + ':ParamTocElement.__init__', PRM + ':ParamTocElement.get_readable_access', PRM + ':ParamTocElement.is_extended',
+                                    PRM + ':Param.set_value', PRM + ':Param.persistent_store'],
+          clause='read-only parameters are refused without any transmission, writable ones are transmitted in their declared type - for every '
+                 'metadata byte the firmware can send: the type is the low nibble, read-only is bit 6 and nothing else (the group / extended / '
+                 'reserved bits do not change type or access); a parameter that was not marked persistent is refused by persistent_store',
+          bounded='the ten numeric type codes x all 16 combinations of the four flag bits')
+def toc_entry_flags(c):
+    code = c.choice('code', sorted(TYPES))
+    c.let('code', code)
+    c.int('flags', 0, 15)
+    c.int('id0', 0, 65535)
+    cf, param, upd = setup(c, [])
+    c.snapshot('entry', "bytes([code | (flags << 4)]) + b'g' + bytes([0]) + b'a' + bytes([0])")
+    el = c.new(PRM + ':ParamTocElement', c.get('id0'), c.get('entry'))
+    c.invoke((c.getfield(param, 'toc'), 'add_element'), el)
+    c.let('el', el)
+    c.let('fmt', TYPES[code][0])
+    c.ensure('declared-type-is-the-low-nibble', 'el.pytype == fmt')
+    ro = bool(c.concretize('(flags & 4) != 0'))
+    c.let('read_only', ro)
+    c.call((el, 'get_readable_access'))
+    c.ensure('access-is-bit-6', "raised is None and result == %r" % ('RO' if ro else 'RW'))
+    c.call((el, 'is_extended'))
+    c.ensure('extended-is-bit-4', "raised is None and result == ((flags & 1) != 0)")
+    c.reset_trace()
+    c.call((param, 'set_value'), 'g.a', 1)
+    c.ensure('refused-iff-read-only', "raised == %r" % ('AttributeError' if ro else None))
+    run_updater(c, upd)
+    if ro:
+        c.ensure('nothing-transmitted', "len(sent('link.send_packet')) == 0")
+    else:
+        c.ensure('transmitted-typed', "len(sent('link.send_packet')) == 1 and bytes(sent('link.send_packet')[0][1][0].data) == pack('<H', id0) + pack(fmt, 1)")
+    c.call((param, 'persistent_store'), 'g.a', c.ext('note'))
+    c.ensure('not-persistent-until-the-device-said-so', "raised == 'AttributeError' and len(sent('note')) == 0")
+
+
+# FINDING (unchanged tree, replays natively; low severity): _ParamUpdater.close() releases the wait lock but leaves _lock_pattern
+# set.  If the link goes away while a request is pending, the answer of that request - arriving in the NEXT connection of the same
+# object while the updater is idle (before it transmits its first request, which overwrites the pattern) - still matches the stale
+# pattern: it is decoded against the new table, cached and passed to the update callbacks although no request of this connection
+# asked for it.  (While a request of the new connection is pending the pattern has been overwritten: contract `reconnect`.)
+# Runs in the thorough tier only until the maintainer of this directory has decided between a fix: commit and a known finding.
+@contract('C04', 'reconnect.late-answer-while-idle', [PRM + ':_ParamUpdater.close', PRM + ':_ParamUpdater._new_packet_cb', PRM + ':Param._disconnected'],
+          clause='every reply is delivered to the request it answers and to no other: the answer to a request of the previous connection that '
+                 'arrives in the next connection, while no request is pending, is delivered to nobody (not cached, no update callback)',
+          bounded='one pending write at the time of the disconnect', thorough_only=True)
+def late_answer_while_idle(c):
+    c.int('id0', 0, 65535)
+    cf, param, upd = setup(c, [(c.get('id0'), 0x09, 'g', 'a')])
+    c.int('va', 0, 65535), c.int('late', 0, 65535)
+    c.call((param, 'set_value'), 'g.a', c.get('va'))
+    run_updater(c, upd)
+    c.require("len(sent('link.send_packet')) == 1")
+    c.set(cf, 'link', None)
+    c.invoke((c.getfield(cf, 'disconnected'), 'call'), URI)
+    c.call((c.getfield(cf, 'connection_requested'), 'call'), URI)
+    c.set(cf, 'link', c.ext('link', attrs={'needs_resending': False}))
+    fill_toc(c, param, [(c.get('id0'), 0x09, 'g', 'a')])
+    cb = c.ext('cb')
+    c.invoke((param, 'add_update_callback'), None, None, cb)
+    c.reset_trace()
+    deliver(c, cf, 2, "pack('<HH', id0, late)")
+    c.ensure('late-answer-of-the-previous-connection-delivered-to-nobody', "len(sent('cb')) == 0 and 'g' not in param.values")
